@@ -107,7 +107,18 @@ type byzState struct {
 	synth   bool
 }
 
-var byzVerifiers = []string{"Verify", "Stump.Update", "Pollard.Verify", "MapPollard.Verify", "MapPollard(partial).Verify", "VerifyPartialProof"}
+var byzVerifiers = []string{"Verify", "Stump.Update", "Pollard.Verify", "MapPollard.Verify", "MapPollard(partial).Verify", "VerifyPartialProof",
+	// the remembering variants mutate the forest, so each call gets a private copy of the instance
+	"MapPollard.Verify(remember)", "MapPollard(partial).Verify(remember)", "VerifyPartialProof(remember)"}
+
+// cloneMapPollard copies a map forest through its exported fields.
+func cloneMapPollard(m *u.MapPollard) *u.MapPollard {
+	c := u.NewMapPollard(m.Full)
+	c.TotalRows, c.NumLeaves = m.TotalRows, m.NumLeaves
+	m.Nodes.ForEach(func(k uint64, v u.Leaf) error { c.Nodes.Put(k, v); return nil })
+	m.CachedLeaves.ForEach(func(k H, v uint64) error { c.CachedLeaves.Put(k, v); return nil })
+	return &c
+}
 
 type byzProgress struct {
 	mu       sync.Mutex
@@ -659,6 +670,7 @@ func (e *byzEngine) evaluate(bs *byzState, c Claim, prog *byzProgress, stats *St
 	for _, h := range c.Hashes {
 		dg = mix64(dg ^ uint64(h[0])<<8 ^ uint64(h[5]))
 	}
+	accepted := map[string]bool{}
 	for vi, ver := range byzVerifiers {
 		if single && only != "" && only != ver {
 			continue
@@ -703,6 +715,20 @@ func (e *byzEngine) evaluate(bs *byzState, c Claim, prog *byzProgress, stats *St
 				continue
 			}
 			call = func() error { return bs.mpPart.VerifyPartialProof(proof.Targets, hashes, proof.Proof, false) }
+		case "MapPollard.Verify(remember)", "MapPollard(partial).Verify(remember)", "VerifyPartialProof(remember)":
+			src := map[string]*u.MapPollard{"MapPollard.Verify(remember)": bs.mpFull, "MapPollard(partial).Verify(remember)": bs.mpPart2, "VerifyPartialProof(remember)": bs.mpPart}[ver]
+			base := ver[:len(ver)-len("(remember)")]
+			// every claim the plain variant accepted, and a fixed eighth of the others
+			if src == nil || (!accepted[base] && !(single && only == ver) && dg%8 != 0) {
+				continue
+			}
+			cl := cloneMapPollard(src)
+			stats.OracleChecks["byz_remember_calls"]++
+			if ver == "VerifyPartialProof(remember)" {
+				call = func() error { return cl.VerifyPartialProof(proof.Targets, hashes, proof.Proof, true) }
+			} else {
+				call = func() error { return cl.Verify(hashes, proof, true) }
+			}
 		}
 		prog.mu.Lock()
 		prog.claim, prog.verifier = c, ver
@@ -723,6 +749,7 @@ func (e *byzEngine) evaluate(bs *byzState, c Claim, prog *byzProgress, stats *St
 			continue
 		}
 		dg = mix64(dg ^ uint64(vi+1)*0x9e37)
+		accepted[ver] = true
 		if c.Mut == "honest" {
 			continue
 		}
@@ -741,11 +768,11 @@ func (e *byzEngine) evaluate(bs *byzState, c Claim, prog *byzProgress, stats *St
 				// map forests also read positions in the numbering of their allocated height
 				var mp *u.MapPollard
 				switch ver {
-				case "MapPollard.Verify":
+				case "MapPollard.Verify", "MapPollard.Verify(remember)":
 					mp = bs.mpFull
-				case "MapPollard(partial).Verify":
+				case "MapPollard(partial).Verify", "MapPollard(partial).Verify(remember)":
 					mp = bs.mpPart2
-				case "VerifyPartialProof":
+				case "VerifyPartialProof", "VerifyPartialProof(remember)":
 					mp = bs.mpPart
 				}
 				if mp != nil && mp.TotalRows != L.R && mp.TotalRows <= 63 {
